@@ -236,7 +236,7 @@ class Exec:
             from .inst import pointwise_check
             self.solver_calls += 1
             try:
-                r = pointwise_check(st.pc, st.qpc, c, self.base_axioms(), 3000) == "unsat"
+                r = pointwise_check(st.pc, tuple(st.qpc) + tuple(union_axioms()), c, self.base_axioms(), 3000) == "unsat"
             except z3.Z3Exception:
                 r = False
         self._ent_cache[key] = ((st.pc, c), r)
